@@ -26,7 +26,7 @@ def BOUNDS(tier):
 
 
 def REQUIRED_COVER(tier):
-    return {'accept', 'reject:duplicate', 'reject:weight', 'reject:exact-two-thirds', 'reject:empty-set', 'reject:invalid', 'reject:foreign', 'n:3', 'parsed-descriptors'}
+    return {'accept', 'reject:duplicate', 'reject:weight', 'reject:exact-two-thirds', 'reject:empty-set', 'reject:invalid', 'reject:foreign', 'n:3', 'parsed-descriptors', 'two-calls'}
 
 
 MAGIC = bytes.fromhex('706e0bc5')
@@ -64,6 +64,13 @@ class World:
         if kind == 'swap':
             j = (i + 1) % n if n > 1 else foreign
             return {'node_id_short': self.ids[j], 'signature': self.sig[(i, blk)]}, j, False
+        if kind == 'long':
+            # an over-long signature field S || P, where S is validator i's genuine signature over P || to_sign: a verifier
+            # that feeds `signature + message` to a combined-mode primitive without checking len(signature) == 64 accepts it
+            rh, fh = self.blocks[blk]
+            pad = filler(0, f'c12-pad-{i}', 32)
+            sgn = self.keys[i].sign(pad + MAGIC + rh + fh).signature
+            return {'node_id_short': self.ids[i], 'signature': sgn + pad}, i, False
         if kind == 'foreign':
             return {'node_id_short': self.ids[foreign], 'signature': self.sig[(foreign, blk)]}, None, False
         raise ValueError(sym)
@@ -161,7 +168,7 @@ def weight_vectors(n, tier):
 
 
 def sequences(n):
-    syms_full = [(k, i) for i in range(n) for k in ('valid', 'validU', 'other', 'flip', 'trunc', 'swap')] + [('foreign', 0)]
+    syms_full = [(k, i) for i in range(n) for k in ('valid', 'validU', 'other', 'flip', 'trunc', 'swap', 'long')] + [('foreign', 0)]
     seen = set()
     for L in range(0, 4):
         for seq in itertools.product(syms_full, repeat=L):
@@ -189,11 +196,65 @@ def shard_n(rec, n, part, parts):
     rec.sample({'weights': [1, 1, 1][:n], 'signatures': [['valid', 0], ['valid', 0], ['valid', 0]], 'expect': 'reject (one validator counted three times)'})
 
 
+def case_two_calls(rec, a, b):
+    """check_block_signatures is a function of its arguments: two calls in a row with DIFFERENT validator sets (arbitrary
+    subsets of three keys, not prefixes) - a signer known from the first call is unknown in the second unless it is a member
+    there.  a, b = (member mask, signer mask, block)"""
+    from pytoniq_core.proof.check_proof import check_block_signatures
+    from pytoniq_core.tlb.config import ValidatorDescr, SigPubKey
+    from pytoniq_core.tl.block import BlockIdExt
+    w = world(rec.seed)
+    args = {'a': list(a), 'b': list(b)}
+    rec.case('two-calls')
+    rec.state(('two', tuple(a), tuple(b)))
+    rec.nontriv(('two', tuple(a), tuple(b)))
+    verdicts = []
+    for (members, signers, blk) in (a, b):
+        mem = [i for i in range(3) if members >> i & 1]
+        sig = [i for i in range(3) if signers >> i & 1]
+        nodes = [ValidatorDescr('validator', SigPubKey(w.pubs[i]), 1) for i in mem]
+        rh, fh = w.blocks[blk]
+        entries = [w.entry(('valid', i), 3, blk)[0] for i in sig]
+        want = bool(mem) and all(i in mem for i in sig) and 3 * len(sig) > 2 * len(mem)
+        rec.trans()
+        try:
+            check_block_signatures(nodes, entries, BlockIdExt(-1, -(1 << 63), 100 + blk, rh, fh))
+            got = True
+        except Exception:
+            got = False
+        rec.trace()
+        verdicts.append((got, want, mem, sig))
+    rec.covered('two-calls')
+    for k, (got, want, mem, sig) in enumerate(verdicts):
+        if got != want:
+            other = verdicts[1 - k]
+            rec.violation('two-calls:' + ('accepted' if got else 'rejected'),
+                          f'call #{k + 1} of two: validators {mem}, valid signatures by {sig}: {"accepted" if got else "rejected"}, must be {"accepted" if want else "rejected"} '
+                          f'(the other call: validators {other[2]}, signatures by {other[3]}): the verdict depends on another call', 'case_two_calls', args)
+            rec.outcome('HISTORY-DEPENDENT')
+            return
+    rec.outcome('two-ok')
+
+
+def shard_two_calls(rec, part, parts):
+    cfgs = [(m, sg, blk) for m in range(8) for sg in range(8) for blk in (0, 1) if blk == 0 or (m, sg) in ((7, 7), (3, 3), (1, 1))]
+    k = 0
+    for a in cfgs:
+        for b in cfgs:
+            k += 1
+            if k % parts == part:
+                case_two_calls(rec, a, b)
+    if part == 0:
+        rec.sample({'two_calls': [[7, 7, 0], [4, 3, 0]], 'meaning': '(member mask, signer mask, block): set {0,1,2} signed by all, then set {2} "signed" by 0 and 1'})
+
+
 def shards(tier, seed):
     out = [{'fn': 'shard_n', 'args': {'n': 0, 'part': 0, 'parts': 1}}, {'fn': 'shard_n', 'args': {'n': 1, 'part': 0, 'parts': 1}},
            {'fn': 'shard_n', 'args': {'n': 2, 'part': 0, 'parts': 2}}, {'fn': 'shard_n', 'args': {'n': 2, 'part': 1, 'parts': 2}}]
     for p in range(16):
         out.append({'fn': 'shard_n', 'args': {'n': 3, 'part': p, 'parts': 16}, 'prio': 2})
+    for p in range(4):
+        out.append({'fn': 'shard_two_calls', 'args': {'part': p, 'parts': 4}})
     if tier == 'thorough':
         for p in range(48):
             out.append({'fn': 'shard_n', 'args': {'n': 4, 'part': p, 'parts': 48}, 'prio': 3})
